@@ -4,6 +4,7 @@ import (
 	"bytes"
 	"crypto/sha512"
 	"encoding/base64"
+	"encoding/hex"
 	"fmt"
 	"sort"
 	"strings"
@@ -212,13 +213,15 @@ func c17RoundtripSub() *engine.Sub {
 }
 
 type c17CorruptCase struct {
+	ArtHex string `json:"artefact_hex,omitempty"` // witnesses carry the container bytes (block order follows Go map iteration)
 	Format string `json:"format"`
 	Op     string `json:"op"` // bitflip | subst | truncate
 	Off    int    `json:"off"`
 	Val    int    `json:"val"` // -1 = all
 }
 
-var c17CorruptNames = []string{"dlg", "inv", "dlg2"}
+// Ed25519 tokens only: their sealed bytes are deterministic, so offsets in a replay file stay meaningful
+var c17CorruptNames = []string{"dlg", "inv", "dlg3"}
 
 func c17CorruptSub() *engine.Sub {
 	arts := map[string]ioArtefact{}
@@ -261,6 +264,12 @@ func c17CorruptSub() *engine.Sub {
 			cs := c.(*c17CorruptCase)
 			setup(ctx.Tier)
 			a := arts[cs.Format]
+			if cs.ArtHex != "" {
+				a.Data, _ = hex.DecodeString(cs.ArtHex)
+				if a.Format == "car" {
+					a.Boundaries = carBoundaries(a.Data)
+				}
+			}
 			want := expectedSetView(c17CorruptNames)
 			ctx.States(1)
 			lo, hi := 0, c06ValRange(cs.Op)
@@ -293,7 +302,7 @@ func c17CorruptSub() *engine.Sub {
 						}
 					}
 					ctx.Outcome("accepted-wrong-set")
-					rc := &c17CorruptCase{Format: cs.Format, Op: cs.Op, Off: cs.Off, Val: v}
+					rc := &c17CorruptCase{Format: cs.Format, Op: cs.Op, Off: cs.Off, Val: v, ArtHex: hex.EncodeToString(a.Data)}
 					ctx.Failf(rc, fmt.Sprintf("corrupt-container-accepted/%s/%s", cs.Format, cs.Op), "%s of the %s container at offset %d (value %d, stream=%v) is read as %d entries that are not the original set", cs.Op, cs.Format, cs.Off, v, stream, len(r))
 				}
 			}
